@@ -117,7 +117,31 @@ def gen_release(rng, tier):
                     for _ in range(rng.randint(4, 12))]}
 
 
+def gen_scale(rng):
+    nc = 110
+    coros = []
+    for k in range(nc):
+        long_wait = k % 3 != 0
+        script = [{'y': rng.choice([20, 30, 50]) if long_wait else None,
+                   'acts': []}] + [{'y': rng.choice([None, 1, 0.5]),
+                                    'acts': []} for _ in range(4)]
+        coros.append({'script': script, 'ret': k % len(RETS)})
+    ops = [['start', k] for k in range(nc)] + [['process', 1]]
+    victims = rng.sample(range(nc), 85)
+    for k in victims:
+        ops.append(['kill', k, rng.random() < 0.3])
+        if rng.random() < 0.04:
+            ops.append(['process', 0.5])
+    ops += [['process', 1], ['state', victims[0]], ['process', 1]]
+    for k in rng.sample(victims, 10):
+        ops.append(['start', k])
+    ops += [['process', 1], ['process', 60], ['process', 1]]
+    return {'mode': 'main', 'coros': coros, 'ops': ops}
+
+
 def gen_cases(tier, seed):
+    for i in range(2 if tier == 'quick' else 32):
+        yield gen_scale(random.Random(f'C09/scale/{seed}/{tier}/{i}'))
     n = 3000 if tier == 'quick' else 16 * 10000
     for i in range(n):
         yield gen_one(random.Random(f'C09/{seed}/{tier}/{i}'), tier, i)
